@@ -643,6 +643,22 @@ func nodeRecord(n *ast.Node) string {
 	}
 	// the *UseNode conversions: children as nodes; each child shown through the ordered canon of its Raw()
 	un := srchUseNodeView(n, t, &bad)
+	// LoadAll, then Len and MarshalJSON of the loaded node
+	if t == 5 || t == 6 {
+		cpl := *n
+		if err := cpl.LoadAll(); err != nil {
+			bad = append(bad, "LoadAll")
+		} else {
+			if mj, err := cpl.MarshalJSON(); err != nil || ocanonText(mj) != oc {
+				bad = append(bad, "MarshalJSONAfterLoad")
+			}
+			cnt := 0
+			cpl.ForEach(func(p ast.Sequence, nd *ast.Node) bool { cnt++; return true })
+			if l, err := cpl.Len(); err != nil || l != cnt {
+				bad = append(bad, "LenAfterLoad")
+			}
+		}
+	}
 	// Raw() again after the node itself has been loaded
 	if _, err := n.InterfaceUseNumber(); err == nil {
 		if raw2, err := n.Raw(); err != nil || ocanonText([]byte(raw2)) != oc {
@@ -925,35 +941,24 @@ func init() {
 		}
 		doc := unhexArg(a[1])
 		pe, pi := parsePath(a[2])
-		var sb strings.Builder
-		apis := runGetAPIs(int(mask64), doc, pe, pi)
-		sb.WriteString("sonic=" + apis[0].rec)
-		// distinct records among the other entry points
-		alts := map[string][]string{}
-		var order []string
-		for _, r := range apis[1:] {
-			if r.rec == apis[0].rec {
-				continue
-			}
-			if _, ok := alts[r.rec]; !ok {
-				order = append(order, r.rec)
-			}
-			alts[r.rec] = append(alts[r.rec], r.name)
+		return srchGetAnswer(int(mask64), doc, pe, pi, false)
+	})
+
+	// c14wide <mask hex> <a|o> <s|e|c|m> <n> <path>: the document is built here (and by the driver) from the
+	// parameters: {"meta":{"n":1},"rows":<container of n children>}; the long fields of every record
+	// travel as <length>:<fnv-1a 64>
+	registerOp("c14wide", func(a []string) string {
+		mask64, err := strconv.ParseUint(a[0], 16, 32)
+		if err != nil {
+			panic("bad option mask")
 		}
-		sb.WriteString("\tapis=" + itoa(len(apis)))
-		for i, rec := range order {
-			sb.WriteString("\talt" + itoa(i) + "=" + strings.Join(alts[rec], "&") + "@" + rec)
+		n, err := strconv.Atoi(a[3])
+		if err != nil {
+			panic("bad n")
 		}
-		// reference
-		if !json.Valid(doc) {
-			sb.WriteString("\tref=invalid")
-		} else if raw, ok := refLocate(doc, pe); ok {
-			sb.WriteString("\tref=" + refRecord(raw))
-		} else {
-			sb.WriteString("\tref=nf")
-		}
-		sb.WriteString("\tu8=" + b01(utf8.Valid(doc)))
-		return sb.String()
+		doc := srchWideDoc(a[1], a[2], n)
+		pe, pi := parsePath(a[4])
+		return srchGetAnswer(int(mask64), doc, pe, pi, true)
 	})
 
 	registerOp("pre", func(a []string) string {
@@ -1362,4 +1367,126 @@ func srchRefUseNode(raw []byte, t int) string {
 	default:
 		return ocanonText(raw)
 	}
+}
+
+// ---------------------------------------------------------------- wide documents by repetition
+
+func srchWideChild(child string, i int) string {
+	switch child {
+	case "s":
+		return itoa(i)
+	case "e":
+		if i%2 == 0 {
+			return "[]"
+		}
+		return "{}"
+	case "c":
+		if i%2 == 0 {
+			return "[" + itoa(i) + `,"r"]`
+		}
+		return `{"id":` + itoa(i) + "}"
+	default: // "m": scalar, empty container, non-empty container in turn
+		switch i % 3 {
+		case 0:
+			return itoa(i)
+		case 1:
+			return "[]"
+		}
+		return `{"id":` + itoa(i) + "}"
+	}
+}
+
+func srchWideDoc(ckind, child string, n int) []byte {
+	var sb strings.Builder
+	sb.WriteString(`{"meta":{"n":1},"rows":`)
+	if ckind == "a" {
+		sb.WriteByte('[')
+	} else {
+		sb.WriteByte('{')
+	}
+	for i := 0; i < n; i++ {
+		if i > 0 {
+			sb.WriteByte(',')
+		}
+		if ckind != "a" {
+			sb.WriteString(`"k` + itoa(i) + `":`)
+		}
+		sb.WriteString(srchWideChild(child, i))
+	}
+	if ckind == "a" {
+		sb.WriteByte(']')
+	} else {
+		sb.WriteByte('}')
+	}
+	sb.WriteByte('}')
+	return []byte(sb.String())
+}
+
+func srchFnv(s string) string {
+	h := uint64(14695981039346656037)
+	for i := 0; i < len(s); i++ {
+		h ^= uint64(s[i])
+		h *= 1099511628211
+	}
+	return itoa(len(s)) + ":" + strconv.FormatUint(h, 16)
+}
+
+// srchCompress: the long fields of a record as <length>:<fnv-1a 64 of the field text>
+func srchCompress(rec string) string {
+	if !strings.HasPrefix(rec, "ok;") {
+		return rec
+	}
+	parts := strings.Split(rec, ";")
+	for i, kv := range parts {
+		eq := strings.IndexByte(kv, '=')
+		if eq < 0 {
+			continue
+		}
+		switch kv[:eq] {
+		case "raw", "oc", "c", "it", "cf", "un":
+			parts[i] = kv[:eq+1] + srchFnv(kv[eq+1:])
+		}
+	}
+	return strings.Join(parts, ";")
+}
+
+func srchGetAnswer(mask int, doc []byte, pe []pathElem, pi []interface{}, compress bool) string {
+	var sb strings.Builder
+	apis := runGetAPIs(mask, doc, pe, pi)
+	if compress {
+		for i := range apis {
+			apis[i].rec = srchCompress(apis[i].rec)
+		}
+	}
+	sb.WriteString("sonic=" + apis[0].rec)
+	// distinct records among the other entry points
+	alts := map[string][]string{}
+	var order []string
+	for _, r := range apis[1:] {
+		if r.rec == apis[0].rec {
+			continue
+		}
+		if _, ok := alts[r.rec]; !ok {
+			order = append(order, r.rec)
+		}
+		alts[r.rec] = append(alts[r.rec], r.name)
+	}
+	sb.WriteString("\tapis=" + itoa(len(apis)))
+	for i, rec := range order {
+		sb.WriteString("\talt" + itoa(i) + "=" + strings.Join(alts[rec], "&") + "@" + rec)
+	}
+	// reference
+	if !json.Valid(doc) {
+		sb.WriteString("\tref=invalid")
+	} else if raw, ok := refLocate(doc, pe); ok {
+		rr := refRecord(raw)
+		if compress {
+			rr = srchCompress(rr)
+		}
+		sb.WriteString("\tref=" + rr)
+	} else {
+		sb.WriteString("\tref=nf")
+	}
+	sb.WriteString("\tu8=" + b01(utf8.Valid(doc)))
+	return sb.String()
 }
